@@ -93,6 +93,19 @@ Theorem sign_manifest_chunks m tokn exp ttl key :
   sign_manifest m tokn exp ttl key = render (sign_tok_k make_sig tokn exp ttl key) (chunks m).
 Proof. apply map_tokens_chunks. Qed.
 
+Theorem sign_manifest_shape m tokn exp ttl key :
+  sign_manifest m tokn exp ttl key =
+    concat_s (map (fun ch : bool * string => if fst ch then sign_tok_k make_sig tokn exp ttl key (snd ch) else snd ch) (chunks m)) /\
+  concat_s (map snd (chunks m)) = m /\
+  Forall (fun ch => snd ch <> "" /\ all_chars (fun c => Bool.eqb (negb (is_ws c)) (fst ch)) (snd ch) = true) (chunks m) /\
+  alternating (chunks m).
+Proof.
+  split; [apply sign_manifest_chunks|]. split; [apply chunks_concat|]. split; [|apply chunks_alternating].
+  apply Forall_forall. intros ch Hin. split.
+  - exact (proj1 (Forall_forall _ _) (chunks_nonempty m) ch Hin).
+  - exact (proj1 (Forall_forall _ _) (chunks_kind m) ch Hin).
+Qed.
+
 (* ---- one token ---- *)
 Lemma not_blk_unchanged tokn exp ttl key t : is_blk t = false -> sign_tok_k make_sig tokn exp ttl key t = t.
 Proof. unfold sign_tok_k. intros ->. reflexivity. Qed.
@@ -142,8 +155,10 @@ Proof.
     rewrite <- join_snoc by apply nonA_fields_nonnil. apply split_join.
     + intro H. apply app_eq_nil in H. destruct H; discriminate.
     + apply Forall_app. split; [apply nonA_fields_nosep|]. constructor; [|constructor].
-      apply sigfield_no_plus; [apply sig_xdigits40|].
-      split; [reflexivity|]. unfold e. eapply all_chars_weaken; [apply lhex_xdigit|apply hex08_lhex].
+      cbn [append has_char]. rewrite has_char_app. cbn [has_char].
+      destruct (sig_xdigits40 key (hd "" (nonA_fields t)) tokn e (ttl_hex ttl)) as [_ Xs]. fold sg in Xs.
+      rewrite (xdigit_no_plus _ Xs). unfold e.
+      rewrite (xdigit_no_plus _ (all_chars_weaken _ _ _ lhex_xdigit (hex08_lhex exp))). reflexivity.
   - unfold nonA_fields. destruct (split_on "+" t) as [|f0 fs]; [constructor|]. cbn [tl].
     apply Forall_forall. intros x Hx. apply filter_In in Hx. destruct Hx as [_ Hx]. apply negb_true_iff, Hx.
 Qed.
@@ -166,9 +181,3 @@ Proof.
   eapply sign_then_verify; eassumption.
 Qed.
 
-Example sign_manifest_example :
-  sign_manifest ". acbd18db4cc2f85cedef654fccc4a4d8+3+Aold@sig+Kzzzzz  0:3:foo+A
-" "tok" 1600000000 1209600000000000 "key" =
-  ". acbd18db4cc2f85cedef654fccc4a4d8+3+Kzzzzz+A8c6f1d49a2c1c8a65a9a5f8eef70ffd6ac2f1bd1@5f5e1000  0:3:foo+A
-" -> True.
-Proof. auto. Qed.
